@@ -21,6 +21,8 @@ REPO = os.environ.get("VERIF_REPO", "/repo")
 PY = sys.executable
 PROPS = ("C14", "C15", "C19", "C20")
 
+ALT_HASHSEEDS = [1, 2, 3, 5, 7, 11, 4242, 31337, 99, 12345, 777, 2024, 65537, 424242, 8, 13, 0]
+
 OUTPUT_MODES = ["sql", "mysql", "mssql", "oracle", "hql", "postgres", "redshift", "snowflake",
                 "bigquery", "spark_sql", "databricks", "athena", "ibm_db2", "sqlite", "vertica"]
 
